@@ -95,12 +95,12 @@ def run(ctx):
                     # derived PartialEq on the fieldless enum HeaderTagType, inlined: discriminant(tag.typ) == discriminant(T::ID)
                     ss = [SEL.canon_place(x) for x in (a0, a1)]
                     a = [x for x in ss if x == ("discr", typ_of_tag) or x == ("discr", ("call", "multiboot2_header::tags::HeaderTagHeader::typ", (fld(deref(SEL.ELEM), 0),)))]
-                    b = [x for x in ss if x[0] == "discr" and SEL.unref(x[1])[0] == "cs" and "promoted" in SEL.unref(x[1])[1]]
+                    b = [x for x in ss if x[0] == "discr" and SEL.is_id_const(x[1])]
                     pred_ok = len(a) == 1 and len(b) == 1
                 elif "HeaderTagType as core::cmp::PartialEq>::eq" in str(via):
                     ss = [SEL.unref(SEL.canon_place(x)) for x in (a0, a1)]
                     a = [x for x in ss if x == typ_of_tag or x == ("call", "multiboot2_header::tags::HeaderTagHeader::typ", (fld(deref(SEL.ELEM), 0),))]
-                    b = [x for x in ss if x[0] == "cs" and "promoted" in x[1]]
+                    b = [x for x in ss if SEL.is_id_const(x)]
                     pred_ok = len(a) == 1 and len(b) == 1
             map_ok = SEL.is_cast_of_elem(sel["map"], poly=True)
             ok = it_ok and pred_ok and map_ok
